@@ -369,7 +369,7 @@ fn drive<T: Payload, O: Payload, S: Getter<O, E> + Updatable<E>>(
     }
     out
 }
-fn dec_events<T: Payload>(l: &[i64], pos: &mut usize) -> Option<Vec<Output<T, E>>> {
+pub fn dec_events<T: Payload>(l: &[i64], pos: &mut usize) -> Option<Vec<Output<T, E>>> {
     let n = next(l, pos)?;
     let mut v = Vec::new();
     for _ in 0..n.max(0) {
